@@ -86,9 +86,9 @@
         } \
         result->is_ipv4 = true; \
     } \
-    else { /* try ipv6 */ \
-        ch = strchr (brs + 1, ':'); \
-        if ((ch == NULL) || (is_ipaddr (ch + 1, bre) == 0)) { \
+    else { /* IPv6-address-literal = "IPv6:" IPv6-addr */ \
+        ch = brs + 6; \
+        if ((strncmp (brs + 1, "IPv6:", 5) != 0) || (is_ipaddr (ch, bre) == 0)) { \
             result->rc = inverse(EEAV_IPADDR_INVALID); \
             return result; \
         } \
